@@ -37,15 +37,17 @@ IsStruct(t) == Under(t).k = "struct"
 IsIface(t)  == Under(t).k = "iface"
 IsFunc(t)   == Under(t).k = "func"
 IsChan(t)   == Under(t).k = "chan"
-Kind(t)     == Under(t).b
+\* byte and rune are distinct *types.Basic objects of go/types with the kinds of uint8 and int32
+CanonKind(b) == CASE b = "byte" -> "uint8" [] b = "rune" -> "int32" [] OTHER -> b
+Kind(t)     == CanonKind(Under(t).b)
 Elem(t)     == Under(t).e
 KeyT(t)     == Under(t).key
 Fields(t)   == Under(t).fs
 Exported(n) == SubSeq(n, 1, 1) \in {"A","B","C","D","E","F","G","H","I","J","K","L","M","N","O","P","Q","R","S","T","U","V","W","X","Y","Z"}
 
-\* the 19 typed basic kinds of go/types (untyped kinds cannot occur in signatures)
+\* the typed basic kinds of go/types (untyped kinds cannot occur in signatures)
 BasicKinds == {"bool", "int", "int8", "int16", "int32", "int64", "uint", "uint8", "uint16", "uint32", "uint64",
-               "uintptr", "float32", "float64", "complex64", "complex128", "string", "unsafe.Pointer"}
+               "uintptr", "float32", "float64", "complex64", "complex128", "string", "unsafe.Pointer", "byte", "rune"}
 
 \* ---------------------------------------------------------------- values
 (* nil | b(tok) | p(a,e) | s(a,es) | arr(es) | m(a,kv) | st(fs) | o(a)   (o = opaque interface/func/chan value)
@@ -79,12 +81,15 @@ Vals(t, w) ==
     [] u.k = "slice" -> {Nil, [k |-> "s", a |-> "i", es |-> <<>>]}
                          \cup {[k |-> "s", a |-> "i", es |-> <<v>>] : v \in Vals(u.e, w)}
                          \cup (IF w >= 2 THEN {[k |-> "s", a |-> "i", es |-> <<v, x>>] : v \in Vals(u.e, 0), x \in Vals(u.e, 0)} ELSE {})
-    [] u.k = "array" -> {[k |-> "arr", es |-> <<v, x>>] : v \in Vals(u.e, w), x \in Vals(u.e, 0)}
+    [] u.k = "array" -> {[k |-> "arr", es |-> <<v, Zero(u.e)>>] : v \in Vals(u.e, w)}          \* one position varies at a time:
+                         \cup {[k |-> "arr", es |-> <<Zero(u.e), v>>] : v \in Vals(u.e, 0)}   \* linear, not quadratic, in |Vals(e)|
     [] u.k = "map"   -> {Nil, [k |-> "m", a |-> "i", kv |-> {}]}
-                         \cup {[k |-> "m", a |-> "i", kv |-> {<<kk, v>>}] : kk \in Vals(u.key, 0), v \in Vals(u.e, w)}
+                         \cup {[k |-> "m", a |-> "i", kv |-> {<<kk, Zero(u.e)>>}] : kk \in Vals(u.key, 0)}
+                         \cup {[k |-> "m", a |-> "i", kv |-> {<<Zero(u.key), v>>}] : v \in Vals(u.e, w)}
     [] u.k = "struct" -> IF Len(u.fs) = 0 THEN {[k |-> "st", fs |-> <<>>]}
                          ELSE IF Len(u.fs) = 1 THEN {[k |-> "st", fs |-> <<v>>] : v \in Vals(u.fs[1].t, w)}
-                         ELSE {[k |-> "st", fs |-> <<v, x>>] : v \in Vals(u.fs[1].t, w), x \in Vals(u.fs[2].t, 0)}
+                         ELSE {[k |-> "st", fs |-> <<v, Zero(u.fs[2].t)>>] : v \in Vals(u.fs[1].t, w)}
+                              \cup {[k |-> "st", fs |-> <<Zero(u.fs[1].t), x>>] : x \in Vals(u.fs[2].t, w)}
     [] u.k \in {"iface", "func", "chan"} -> {Nil}
 
 \* erase addresses (C02 compares structure only; aliasing is C04's business)
